@@ -375,6 +375,60 @@ func runC17(c *Ctx) {
 			c.Check(fname(sam)+"#nonce-before-handler", ci.Pos(), ok2, ifelse(ok2, "SetNonce(from, GetNonce+1) dominates the handler dispatch", "a staking transaction is handled without the sender's nonce having been raised: it can be applied again"))
 		}
 	}
+	// the raised nonce survives a failed execution: the bump is not inside a snapshot that the same function reverts
+	for _, fn := range []*ssa.Function{tdb, crt, sam} {
+		for _, bump := range callInstrs(fn) {
+			if !isNonceBump(bump) {
+				continue
+			}
+			c.sites++
+			bad := ""
+			for _, sn := range callInstrs(fn) {
+				o := calleeObj(sn)
+				if o == nil || o.Name() != "Snapshot" || sn.Value() == nil {
+					continue
+				}
+				reverted := false
+				for _, rv := range callInstrs(fn) {
+					if ro := calleeObj(rv); ro != nil && ro.Name() == "RevertToSnapshot" {
+						for _, a := range callArgs(rv) {
+							if derivesFrom(a, func(v ssa.Value) bool { return v == ssa.Value(sn.Value()) }) {
+								reverted = true
+							}
+						}
+					}
+				}
+				if !reverted {
+					continue
+				}
+				// can the snapshot be taken before the bump?
+				before := false
+				if sn.Block() == bump.Block() {
+					before = instrIndex(sn) < instrIndex(bump)
+				} else {
+					seen := map[*ssa.BasicBlock]bool{}
+					work := append([]*ssa.BasicBlock(nil), sn.Block().Succs...)
+					for len(work) > 0 {
+						b := work[len(work)-1]
+						work = work[:len(work)-1]
+						if seen[b] {
+							continue
+						}
+						seen[b] = true
+						if b == bump.Block() {
+							before = true
+							break
+						}
+						work = append(work, b.Succs...)
+					}
+				}
+				if before {
+					bad = w.Pos(sn.Pos())
+				}
+			}
+			c.Check(fname(fn)+"#nonce-bump-outside-reverted-snapshot", bump.Pos(), bad == "", ifelse(bad == "", "no snapshot that this function reverts is taken before the bump", "the snapshot taken at "+bad+" precedes the sender's nonce bump and is reverted when execution fails: a failed (but included and charged) transaction leaves the nonce unchanged and can be applied again"))
+		}
+	}
 	// no other nonce write of the sender under ApplyMessageEntry: SetNonce call sites in core, staking
 	for _, fn := range append(w.FuncsIn("core"), w.FuncsIn("staking")...) {
 		if strings.HasSuffix(w.fileOf(fn.Pos()), "_test.go") {
